@@ -1,0 +1,109 @@
+//! Hooks for the out-of-tree verification harness.
+//!
+//! This module only exists when the crate is compiled with `--cfg
+//! nexosim_verif`. It lets a harness observe and steer scheduling decisions
+//! that are otherwise internal: which task the single-threaded executor runs
+//! next, where a task may be preempted, and the protocol points of the
+//! lock-free primitives and of the thread pool. Without an installed
+//! [`Hooks`] object every hook is a no-op.
+#![allow(missing_docs)]
+
+use std::cell::Cell;
+use std::future::Future;
+use std::pin::Pin;
+use std::sync::{Arc, RwLock};
+use std::task::{Context, Poll, Waker};
+
+/// Callbacks implemented by the harness.
+pub trait Hooks: Send + Sync {
+    /// A task was spawned on an executor (called in spawn order).
+    fn spawned(&self, _task: usize) {}
+    /// The single-threaded executor is about to take a task. `queue` lists
+    /// the ids of the runnable tasks, the last one being the default choice.
+    /// Returns the id of the task to run next, which must be in the run queue
+    /// when this call returns (the callee may wake parked tasks).
+    fn pick(&self, _queue: &[usize]) -> Option<usize> {
+        None
+    }
+    /// The task `task` reached the yield site `site`; if `true` is returned
+    /// its waker is handed over with `park` and the task is suspended.
+    fn yield_point(&self, _task: usize, _site: u32) -> bool {
+        false
+    }
+    /// Receives the waker of a task suspended at a yield site.
+    fn park(&self, _task: usize, _waker: Waker) {}
+    /// A trace/gate point was reached (may block the calling thread).
+    fn point(&self, _id: u32, _a: usize, _b: usize) {}
+}
+
+static HOOKS: RwLock<Option<Arc<dyn Hooks>>> = RwLock::new(None);
+
+thread_local! { static CURRENT_TASK: Cell<usize> = const { Cell::new(0) }; }
+
+/// Installs (or removes) the hooks object.
+pub fn install(hooks: Option<Arc<dyn Hooks>>) {
+    *HOOKS.write().unwrap() = hooks;
+}
+
+fn hooks() -> Option<Arc<dyn Hooks>> {
+    HOOKS.read().unwrap().clone()
+}
+
+pub(crate) fn spawned(task: usize) {
+    if let Some(h) = hooks() {
+        h.spawned(task);
+    }
+}
+
+/// Id of the task being run by the current thread (0 if none).
+pub fn current_task() -> usize {
+    CURRENT_TASK.with(|c| c.get())
+}
+
+pub(crate) fn set_current_task(task: usize) {
+    CURRENT_TASK.with(|c| c.set(task));
+}
+
+/// Asks the harness which of the runnable tasks should run next.
+pub(crate) fn pick(queue: &[usize]) -> Option<usize> {
+    hooks().and_then(|h| h.pick(queue))
+}
+
+/// A trace/gate point.
+#[inline]
+pub(crate) fn point(id: u32, a: usize, b: usize) {
+    if let Some(h) = hooks() {
+        h.point(id, a, b);
+    }
+}
+
+/// A point at which the current task may be suspended by the harness.
+pub(crate) fn yield_now(site: u32) -> YieldNow {
+    YieldNow { site, done: false }
+}
+
+pub(crate) struct YieldNow {
+    site: u32,
+    done: bool,
+}
+
+impl Future for YieldNow {
+    type Output = ();
+
+    fn poll(mut self: Pin<&mut Self>, cx: &mut Context<'_>) -> Poll<()> {
+        if self.done {
+            return Poll::Ready(());
+        }
+        self.done = true;
+        if let Some(h) = hooks() {
+            let task = current_task();
+            if task != 0 && h.yield_point(task, self.site) {
+                h.park(task, cx.waker().clone());
+
+                return Poll::Pending;
+            }
+        }
+
+        Poll::Ready(())
+    }
+}
